@@ -58,6 +58,9 @@ def gen_case(rng, i):
     if kind == "form":
         ecols = 2
     reject = (i % 6 == 5)
+    sm = rng.random()
+    # per case: every stretch factor 1 (qmluic's own gap filler, while Qt's default is 0), every factor 0, or arbitrary
+    stretch = (lambda: 1) if sm < 0.15 else (lambda: 0) if sm < 0.2 else (lambda: rng.randint(0, 9))
     children = []
     for k in range(n):
         ch = {"cls": rng.choice(CHILD)}
@@ -90,9 +93,9 @@ def gen_case(rng, i):
         if kind == "grid":
             for ch, (r, c) in zip(children, cells):
                 if rng.random() < 0.35:
-                    ch["rowStretch"] = rowvals.setdefault(("rs", r), rng.randint(0, 9))
+                    ch["rowStretch"] = rowvals.setdefault(("rs", r), stretch())
                 if rng.random() < 0.35:
-                    ch["columnStretch"] = colvals.setdefault(("cs", c), rng.randint(0, 9))
+                    ch["columnStretch"] = colvals.setdefault(("cs", c), stretch())
                 if rng.random() < 0.35:
                     ch["rowMinimumHeight"] = rowvals.setdefault(("rm", r), 10 * (r + 1) + rng.randint(0, 3))
                 if rng.random() < 0.35:
@@ -101,7 +104,7 @@ def gen_case(rng, i):
         key = "rowStretch" if kind == "vbox" else "columnStretch"
         for ch in children:
             if rng.random() < 0.4:
-                ch[key] = rng.randint(0, 9)
+                ch[key] = stretch()
     if reject:
         # one clear-cut invalid value
         opts = []
@@ -162,6 +165,8 @@ def gen_case(rng, i):
                 else:
                     what = None
             case["reject"] = what
+    if not case.get("reject") and kind in ("grid", "form") and rng.random() < 0.05:
+        case["spelling"] = rng.randint(1, 2)
     return case
 
 
@@ -180,9 +185,11 @@ def to_qml(case):
     for i, ch in enumerate(case["children"]):
         out.append("        %s {" % ch["cls"])
         out.append("            id: c%d" % i)
-        for k in ("row", "column", "rowSpan", "columnSpan", "rowStretch", "columnStretch", "rowMinimumHeight", "columnMinimumWidth"):
+        for n, k in enumerate(("row", "column", "rowSpan", "columnSpan", "rowStretch", "columnStretch", "rowMinimumHeight", "columnMinimumWidth")):
             if k in ch:
-                out.append("            QLayout.%s: %d" % (k, ch[k]))
+                # `spelling`: the attached type written as the concrete layout class for some of the bindings of a child
+                owner = lay if (case.get("spelling") and (n + i + case["spelling"]) % 2 == 0) else "QLayout"
+                out.append("            %s.%s: %d" % (owner, k, ch[k]))
         if "alignment" in ch:
             out.append("            QLayout.alignment: %s" % " | ".join(ch["alignment"]))
         out.append("        }")
@@ -287,6 +294,8 @@ def run(tier, seed, replay=None):
                     and predicts_rowmin_at_column(case, cells)[0] == "reject":
                 v.violation("rowminimumheight-at-column", "consistent row minimum heights rejected as conflicting: %r" % msgs[:2], rp)
             else:
+                if case.get("spelling"):
+                    continue   # the derived spelling of the attached type need not be supported; if it is accepted it is judged
                 v.violation("rejected-valid", "consistent layout rejected: %r" % msgs[:3], rp)
             continue
         n_acc += 1
